@@ -65,7 +65,7 @@ func (c *Constraints) transform(v reflect.Value) {
 
 		case reflect.String:
 			// can only apply upper transform to string
-			v.SetString(strings.ToUpper(v.Interface().(string)))
+			v.SetString(strings.ToUpper(v.String()))
 		}
 	}
 
@@ -84,7 +84,7 @@ func (c *Constraints) transform(v reflect.Value) {
 
 		case reflect.String:
 			// can only apply upper transform to string
-			v.SetString(strings.ToLower(v.Interface().(string)))
+			v.SetString(strings.ToLower(v.String()))
 		}
 	}
 }
